@@ -1,7 +1,7 @@
 """C20 -- queries are pure and composite objects own their data."""
 import copy
 from .common import *
-from . import c04
+from . import c04, c02
 from .c07 import same
 from .c08 import H_
 from symgeo import shims
@@ -127,6 +127,41 @@ def fam_pure(ctx, ka, kb, variant):
     ctx.outcome('ok')
 
 
+def fam_pure_unit(ctx, ka, axis, sign):
+    """operands whose direction / normal is an exact unit vector along a (negative) coordinate axis -- the one case in which the
+    library's normalisation and sign canonicalisation have nothing to do: a = 1-D object or plane with that direction, b = a plane
+    crossing it"""
+    u = tuple(ctx.param('u%d' % i) for i in range(3))
+    d = tuple(F(sign) if i == axis else F(0) for i in range(3))
+    w = tuple(F(1) if i == (axis + 1) % 3 else F(0) for i in range(3))
+    A0 = R.vadd((F(1, 2), F(-1, 4), F(1)), u)
+    if ka == 'Plane':
+        A = R.RPlane(A0, d)
+        Bq = R.RLine((F(3, 4), F(1, 2), F(-1, 4)), R.vadd(d, w))
+    else:
+        A = c02._one(ka, A0, d) if ka != 'Segment' else R.RSegment(A0, R.vadd(A0, d))
+        Bq = R.RPlane((F(3, 4), F(1, 2), F(-1, 4)), R.vadd(d, w))
+    R.band_pair(ctx, A, Bq)
+    a, b = mk(ctx, A), mk(ctx, Bq)
+    sa0, sb0 = snap(a), snap(b)
+    qs = queries(ka, Bq.kind)
+    first = {}
+    for name, fn in qs:
+        st, r = call(lambda: fn(a, b))
+        first[name] = (st, r)
+        ctx.require(And(snap_eq(sa0, snap(a)), snap_eq(sb0, snap(b))), 'C20:%s(%s,%s) changes an attribute of an operand (unit axis direction)' % (name, ka, Bq.kind))
+    a2, b2 = mk(ctx, A), mk(ctx, Bq)
+    for name, fn in reversed(qs):
+        if name == 'repr':
+            continue
+        st, r = call(lambda: fn(a, b))
+        st2, r2 = call(lambda: fn(a2, b2))
+        s0, r0 = first[name]
+        ok = (st == s0 == st2) and (st == 'raise' or And(res_eq(r, r0), res_eq(r2, r0)))
+        ctx.require(ok, 'C20:%s(%s,%s) answers differently depending on earlier queries (unit axis direction)' % (name, ka, Bq.kind))
+    ctx.outcome('ok')
+
+
 def fam_own(ctx, kind, mut):
     """composites are unaffected by later mutation of the arguments they were built from; deep copies are independent"""
     e1, e2, e3 = B.frame_vectors('oblique')
@@ -219,6 +254,9 @@ def families(tier, seed):
             if ka == kb == 'Plane':
                 v = 0
             fams.append(Family('pure/%s-%s/v%d' % (ka, kb, v), fam_pure, (ka, kb, v), must_reach=('ok',), budget_s=300 if heavy else None))
+    for ki, ka in enumerate(('Line', 'HalfLine', 'Segment', 'Plane')):
+        for axis, sign in (((ki % 3, -1), ((ki + 1) % 3, 1)) if tier == 'quick' else [(ax, sg) for ax in range(3) for sg in (-1, 1)]):
+            fams.append(Family('pure-unit/%s/axis%d%s' % (ka, axis, '-' if sign < 0 else '+'), fam_pure_unit, (ka, axis, sign), must_reach=('ok',)))
     for kind in ('Segment', 'Segment(P,V)', 'HalfLine', 'HalfLine(P,V)', 'Line(P,P)', 'ConvexPolygon', 'ConvexPolygon(list)', 'Parallelogram',
                  'Parallelepiped', 'ConvexPolyhedron'):
         for mut in ('move', 'assign'):
